@@ -43,7 +43,8 @@ def init_pattern(rank, bank, row, col, nbytes):
 
 class RefDRAM:
     def __init__(self, dfi, nphases, nranks, bankbits, dfi_databits, read_latency, write_latency,
-                 rdphase=None, wrphase=None, passive_data=False, poison=0xA5):
+                 rdphase=None, wrphase=None, passive_data=False, poison=0xA5, init_fn=None):
+        self.init_fn = init_fn or init_pattern
         self.dfi = dfi
         self.nphases = nphases
         self.nranks = nranks
@@ -68,11 +69,15 @@ class RefDRAM:
         self.cycle = 0
         self._pending_wr = []  # (due_cycle, entry)
         self._pending_rd = []  # (due_cycle, data int)
+        self._due_set = set()
         self.written = set()
         self.counts = {}
         self.bigrams = set()
         self._last_cmd = None
         self.strobe_log = []   # (cycle, phase, rddata_en, wrdata_en) when set
+        self.expected_rd = []  # passive mode: (due cycle, data, log entry)
+        self.observed_rd = {}  # passive mode: cycle -> (rddata of all phases, rddata_valid bits) for cycles with an expected burst
+        self.valid_cycles = [] # passive mode: cycles in which the other slave raised rddata_valid
 
     # ------------------------------------------------------------------------------------------
     def _sigs(self):
@@ -81,13 +86,16 @@ class RefDRAM:
             sigs += [p.cs_n, p.ras_n, p.cas_n, p.we_n, p.bank, p.address, p.rddata_en, p.wrdata_en]
         for p in self.dfi.phases:
             sigs += [p.wrdata, p.wrdata_mask]
+        if self.passive_data:
+            for p in self.dfi.phases:
+                sigs += [p.rddata, p.rddata_valid]
         return sigs
 
     def get(self, rank, bank, row, col):
         key = (rank, bank, row, col)
         v = self.store.get(key)
         if v is None:
-            v = init_pattern(rank, bank, row, col, self.word_bytes)
+            v = bytearray(self.init_fn(rank, bank, row, col, self.word_bytes))
             self.store[key] = v
         return v
 
@@ -154,6 +162,17 @@ class RefDRAM:
                     else:
                         rest.append((due, e))
                 self._pending_wr = rest
+            if self.passive_data:
+                base = 10 * nph
+                rd = 0
+                vbits = 0
+                for ph in range(nph):
+                    rd |= vals[base + 2 * ph] << (ph * self.dfi_databits)
+                    vbits |= vals[base + 2 * ph + 1] << ph
+                if vbits:
+                    self.valid_cycles.append(cyc)
+                if self._due_set and cyc in self._due_set:
+                    self.observed_rd[cyc] = (rd, vbits)
             # ---- read data to drive for the next cycle
             self.cycle = cyc + 1
             if not self.passive_data:
@@ -221,7 +240,11 @@ class RefDRAM:
                     data = int.from_bytes(bytes([0x5A]) * self.word_bytes, "little")
                 self.rd_log.append(dict(cycle=cyc, phase=ph, rank=rank, bank=bank, row=row, col=col,
                                         ap=a10, data=data, open=is_open, t=t))
-                self._pending_rd.append((cyc + self.read_latency, data))
+                if self.passive_data:
+                    self.expected_rd.append((cyc + self.read_latency, data, self.rd_log[-1]))
+                    self._due_set.add(cyc + self.read_latency)
+                else:
+                    self._pending_rd.append((cyc + self.read_latency, data))
             else:
                 if self.wrphase is not None and ph != self.wrphase:
                     self.event("wr-on-wrong-phase", phase=ph, t=t)
